@@ -72,6 +72,16 @@ def cases(tier):
                                         yield {'op': 'td', 'd1': d1, 'd2': d2, 'k': k, 'mode': mode, 'gS': gS, 'gC': gC,
                                                'gO': gO, 'rS': list(rS), 'rO': list(rO), 'oS': oS, 'oO': oO, 'cS': cS,
                                                'cO': cO, 'alph': 'Q' if q else 'Q3'}
+    # ---- tensordot of a tensor train with ITSELF (the same object as both operands), with and without overwrite
+    for d in (1, 2, 3):
+        for sites in itertools.product([(2, 1), (3, 1), (2, 2)], repeat=d):
+            for rr in itertools.product([1, 2], repeat=d - 1):
+                for c in (False, True):
+                    for mode in MODES:
+                        for k in range(1, d + 1):
+                            if mode in ('last-first', 'first-last') and list(sites[d - k:]) != list(sites[:k]):
+                                continue
+                            yield {'op': 'tdself', 'sites': [list(x) for x in sites], 'r': [1] + list(rr) + [1], 'c': c, 'mode': mode, 'k': k}
     # ---- rank_tensordot / concatenate / rank_transpose
     for d in ([1, 2, 3] if q else [1, 2, 3, 4]):
         for sites in itertools.product(Q if d < 4 else [(2, 1), (1, 2)], repeat=d):
@@ -267,6 +277,29 @@ def run_td(case, r, rng):
                 else:
                     r.true(key + ':self-unchanged', unchanged(A2, sA), 'self changed by tensordot(overwrite=False)')
             r.true(key + ':other-unchanged', unchanged(B, sB), 'other changed by tensordot')
+    return r
+
+
+def run_tdself(case, r, rng):
+    """differential oracle: t.tensordot(t) == t.tensordot(distinct copy of t), the latter being covered by the td lattice"""
+    sites, rk, c, mode, k = case['sites'], case['r'], case['c'], case['mode'], case['k']
+    A = mk_sites(rng, sites, rk, c)
+    sA = snap(A)
+    r.nontrivial = True
+    key = 'tensordot:aliased-operands:%s' % mode
+    with r.op(key + ':reference:call'):
+        W = A.tensordot(A.copy(), k, mode=mode)
+    want = sites_dense(W.cores)
+    dims = [(W.row_dims[i], W.col_dims[i]) for i in range(W.order)]
+    for ow in (False, True):
+        A2 = A.copy()
+        with r.op(key + ':call'):
+            T = A2.tensordot(A2, k, mode=mode, overwrite=ow)
+            if check_result(r, key + (':ow' if ow else ''), T, want, dims):
+                if ow:
+                    r.true(key + ':ow:identity', T is A2, 'overwrite=True must return self')
+                else:
+                    r.true(key + ':self-unchanged', unchanged(A2, sA), 'self changed by tensordot(overwrite=False)')
     return r
 
 
